@@ -279,7 +279,26 @@ def cmd_checks(path, limit, allchecks=False, maxchecks=0, files=None):
                 for funcs, cs in FIRST_BY_FUNC:
                     if m["func"] in funcs:
                         first += cs
-                first = [c for i, c in enumerate(first) if c in order and c not in first[:i]]
+                oldtxt = m.get("old", "")
+                if "_validate" in oldtxt or "validator" in m["func"] or "require_string_key" in m["func"]:
+                    first = ["C11", "C12", "C19"] + first
+                if m["func"] in ("__lt__", "__le__", "__gt__", "__ge__"):
+                    first = ["C03"] + first
+                if m["op"] == "drop-with" and ("_load_and_save" in oldtxt or "lock" in oldtxt.lower()):
+                    first = ["C09", "C10", "C13"] + first
+                if m["func"] == "_save_to_resource":
+                    first = ["C08", "C01"] + first
+                if m["func"] == "filename":
+                    first = ["C10"] + first
+                if m["func"] in ("get_type",):
+                    first = ["C19"] + first
+                if m["func"] in ("default",):
+                    first = ["C12", "C19"] + first
+                if m["func"] in ("clear", "reverse", "reset", "pop") and m["op"] != "drop-with":
+                    first = ["C01", "C03", "C04"] + first
+                if m["func"] == "_update":
+                    first = ["C02", "C01", "C11"] + first
+                first = [c for i, c in enumerate(first) if c in order + ["C19", "C12", "C13", "C04"] and c not in first[:i]]
                 order = first + [c for c in order if c not in first]
                 if maxchecks:
                     order = order[:maxchecks]
